@@ -153,7 +153,7 @@ func (p *exeParser) readField() (f *Field, err error) {
 	if len(token) == 0 && err == nil {
 		err = parseError(p.line, p.col, "a field name can not be blank")
 	}
-	f = &Field{SelBase: SelBase{line: p.line, col: p.col - len(token)}}
+	f = &Field{SelBase: SelBase{line: p.tokLine, col: p.tokCol}}
 	if err == nil {
 		b, err = p.skipSpace()
 	}
@@ -215,7 +215,7 @@ func (p *exeParser) readFragRef(token string) (fr *FragRef, err error) {
 	if frag := p.exe.Fragments[token]; frag != nil {
 		fr.Fragment = frag
 	} else {
-		fr.Fragment = &Fragment{Name: token, Inline: Inline{SelBase: SelBase{line: p.line, col: p.col - len(token)}}}
+		fr.Fragment = &Fragment{Name: token, Inline: Inline{SelBase: SelBase{line: p.tokLine, col: p.tokCol}}}
 		if p.exe.Fragments == nil {
 			p.exe.Fragments = map[string]*Fragment{token: fr.Fragment}
 		} else {
@@ -228,7 +228,7 @@ func (p *exeParser) readFragRef(token string) (fr *FragRef, err error) {
 }
 
 func (p *exeParser) readInline(t Type) (in *Inline, err error) {
-	in = &Inline{Condition: t, SelBase: SelBase{line: p.line, col: p.col}}
+	in = &Inline{Condition: t, SelBase: SelBase{line: p.tokLine, col: p.tokCol}}
 
 	if in.Dirs, err = p.readDirUses(); err == nil {
 		in.Sels, err = p.readSelectionSet()
@@ -308,8 +308,8 @@ func (p *exeParser) readVarDef() (vd *VarDef, err error) {
 	if len(vd.Name) == 0 {
 		return nil, parseError(p.line, p.col, "variable name missing")
 	}
-	vd.line = p.line
-	vd.col = p.col - len(vd.Name)
+	vd.line = p.tokLine
+	vd.col = p.tokCol
 	var b byte
 	if b, err = p.skipSpace(); err != nil {
 		return nil, err
